@@ -768,6 +768,18 @@ func TestC09Meta(t *testing.T) {
 						kds[1].Parent.RemoveChild(kds[1])
 					}
 					try(fmt.Sprintf("cert=%s use=%q second=%v", name, use, second), xt.Write(tree, plainStyle.W))
+					if second {
+						// the same certificate listed twice for one purpose (a key roll-over that did not change the key)
+						if use == "" {
+							kds[1].DelAttr("use")
+						} else {
+							kds[1].SetAttr("use", use)
+						}
+						try(fmt.Sprintf("cert=%s use=%q listed twice", name, use), xt.Write(tree, plainStyle.W))
+						third := kds[1].Clone()
+						kds[1].Parent.Add(third)
+						try(fmt.Sprintf("cert=%s use=%q listed three times", name, use), xt.Write(tree, plainStyle.W))
+					}
 				}
 			}
 		}
